@@ -42,14 +42,20 @@ Theorem C12_all_children_valid : forall align pad cs,
 Proof. exact all_children_valid. Qed.
 Print Assumptions C12_all_children_valid.
 
-(* The weight generator: every next() returns (within gen_fuel micro-steps)
-   from every reachable state. *)
-Theorem C12_generator_next_total : forall g, ginv g ->
-  exists it g', next g = Some (it, g') /\ ginv g' /\
-    exists q, (q < length (g_items g))%nat /\ it = nth q (g_items g) O.
+(* The weight generator: the initial state satisfies the invariant [ginv],
+   and from every state satisfying it next() returns (within gen_fuel
+   micro-steps) a weighted item and a state satisfying it again - so every
+   next() of every reachable state returns. *)
+Theorem C12_generator_next_total :
+  (forall ws g, gen_init (seq 0 (length ws)) ws = Some g -> ginv g) /\
+  (forall g, ginv g ->
+     exists it g', next g = Some (it, g') /\ ginv g' /\
+       exists q, (q < length (g_items g))%nat /\ it = nth q (g_items g) O).
 Proof.
-  intros g I. destruct (next_total g I) as (it & g' & Hn & I' & _ & _ & _ & _ & q & Hq & Hit & _).
-  exists it, g'. split; [exact Hn|]. split; [exact I'|]. exists q. auto.
+  split.
+  - intros ws g H. apply (gen_init_spec ws g H).
+  - intros g I. destruct (next_total g I) as (it & g' & Hn & I' & _ & _ & _ & _ & q & Hq & Hit & _).
+    exists it, g'. split; [exact Hn|]. split; [exact I'|]. exists q. auto.
 Qed.
 Print Assumptions C12_generator_next_total.
 
@@ -233,17 +239,26 @@ Theorem C12_split_report_valid : forall fuel orient axis align pad cs width r,
 Proof. exact split_report_valid. Qed.
 Print Assumptions C12_split_report_valid.
 
-(* ... also with an explicit width= / height= on the split, which then is
-   what the split reports *)
-Theorem C12_split_report_override_valid : forall ov fuel orient axis align pad cs width r,
+(* ... and with enough fuel for VSplit.preferred_height's division of the
+   widths the report always exists (never the out-of-fuel / error codes) *)
+Theorem C12_split_report_total : forall fuel orient axis align pad cs width,
   valid pad -> Forall valid (map fst cs) -> Forall valid (map snd cs) ->
-  (forall o, ov = Some o -> exists d, o = COk d /\ valid d) ->
-  split_report_ov ov fuel orient axis align pad cs width = inl r ->
-  exists d, r = COk d /\ valid d.
-Proof. exact split_report_ov_valid. Qed.
+  (divide_fuel (all_children align pad (map fst cs)) width <= fuel)%nat ->
+  exists d, split_report fuel orient axis align pad cs width = inl (COk d) /\ valid d.
+Proof. exact split_report_total. Qed.
+Print Assumptions C12_split_report_total.
+
+(* ... with an explicit width= / height= on the split (a Dimension built by
+   the constructor; an int n is Dimension.exact(n)) the split reports
+   exactly that Dimension, which is well-formed *)
+Theorem C12_split_report_override_valid : forall mn mx w p fuel orient axis align pad cs width d,
+  split_report_ov (Some (dimension mn mx w p)) fuel orient axis align pad cs width = inl (COk d) ->
+  valid d /\ dimension mn mx w p = COk d.
+Proof. exact split_report_ov_ctor_valid. Qed.
 Print Assumptions C12_split_report_override_valid.
 
-(* Across the split axis there is no division: every child is handed the
+(* (A statement of fact about one expression, recorded because it delimits
+   the property.)  Across the split axis there is no division: every child is handed the
    full cross extent of the split, whatever it asks for (HSplit passes the
    width on; VSplit computes max(h, min(h, max(heights))) = h).  So for
    nesting ACROSS the axis "within each leaf's bounds" is not a property of
